@@ -10,7 +10,9 @@ pub fn gen_case(profile: &str, rng: &mut Rng, out: &mut String) -> bool {
         "C04" => super::c04::gen_case(rng, out),
         "C04T" => super::c04t::gen_case(rng, out),
         "C05" => super::c05::gen_case(rng, out),
+        "C05T" => super::c05t::gen_case(rng, out),
         "C06" => super::c06::gen_case(rng, out),
+        "C06T" => super::c06t::gen_case(rng, out),
         "C07" => super::c01::gen_case(rng, out, true),
         "C08" => super::c02::gen_case(rng, out, true),
         "C09" => super::c09::gen_case(rng, out),
@@ -18,12 +20,15 @@ pub fn gen_case(profile: &str, rng: &mut Rng, out: &mut String) -> bool {
         "C11" => super::c11::gen_case(rng, out),
         "C12" => super::c12::gen_case(rng, out),
         "C13" => super::c13::gen_case(rng, out),
+        "C13T" => super::c13t::gen_case(rng, out),
         "C14" => super::c14::gen_case(rng, out),
+        "C14T" => super::c14t::gen_case(rng, out),
         "C15" => super::c15::gen_case(rng, out),
         "C16" => super::c16::gen_case(rng, out),
         "C17" => super::c17::gen_case(rng, out),
         "C18" => super::c18::gen_case(rng, out),
         "C19" => super::c19::gen_case(rng, out),
+        "C19T" => super::c19t::gen_case(rng, out),
         "C20" => super::c20::gen_case(rng, out),
         _ => return false,
     }
